@@ -266,6 +266,32 @@ class ParseModel(object):
                                               'the candidate tags of all words go through the one queue `%s`, which is never emptied between words: what a word left behind '
                                               '(tags beyond pruning_size or below its threshold) competes with the next word\'s own tags and can be seeded as that word\'s '
                                               'supertag with the other word\'s score' % q)
+        if not per_word:
+            # the candidates of a word kept in a plain vector and "ranked" by std::nth_element: that call only puts the
+            # element at the split position in place -- the block before it is not ordered, so front() is not the best tag
+            # and walking the block in index order is not walking the candidates best first
+            for n_ in ps.walk():
+                if n_.kind == 'CallExpr' and n_.kids and strip(n_.kids[0]).ref == 'nth_element':
+                    base = [x for x in n_.kids[1].walk() if x.kind == 'DeclRefExpr' and x.refkind == 'VarDecl'] if len(n_.kids) > 1 else []
+                    names_ = {x.ref for x in base}
+                    def other_branch(a_, b_):
+                        # a_ and b_ sit in different branches of one if: only one of them runs
+                        for anc in a_.ancestors():
+                            if anc.kind == 'IfStmt' and len(anc.kids) >= 3:
+                                ina = [any(y is a_ for y in k_.walk()) for k_ in anc.kids[1:3]]
+                                inb = [any(y is b_ for y in k_.walk()) for k_ in anc.kids[1:3]]
+                                if (ina[0] and inb[1]) or (ina[1] and inb[0]):
+                                    return True
+                        return False
+                    resorted = any(c_.kind == 'CallExpr' and c_.kids and strip(c_.kids[0]).ref in ('sort', 'partial_sort', 'stable_sort') and c_.line > n_.line
+                                   and names_ & {x.ref for x in c_.walk() if x.kind == 'DeclRefExpr'} and not other_branch(n_, c_) for c_ in ps.walk())
+                    reads_front = any(c_.kind == 'CXXMemberCallExpr' and strip(c_.kids[0]).name in ('front', 'begin') and c_.line > n_.line for c_ in ps.walk()) or True
+                    if not resorted and reads_front:
+                        from .core import StructuralViolation
+                        raise StructuralViolation('R-model', '%s:%s parse_sentence' % (H, n_.line), 'scored:nth-element',
+                                                  'the supertags of a word are selected with std::nth_element and then read in index order (front(), [i]): nth_element '
+                                                  'only places the element at the split position, the selected block is unordered -- the best score the beta threshold '
+                                                  'is derived from and the order in which candidates are admitted are not those of the ranking')
         self.scored = self._one_local(lambda d: 'vector<std::priority_queue<' in (d.type or '') or 'vector<std::priority_queue<' in (d.dtype or ''),
                                       'per-word candidate queues')
         # desugared type of the candidate queues (aliases resolved): the comparator decides what top() means
